@@ -36,3 +36,27 @@ Print Assumptions C11_drawing_preserves_transform_partial.
 (* stroke is the fill, under the current transform, of the user-space outline (definition of step_op on OpStroke) *)
 Theorem C11_stroke_is_fill_of_user_space_outline_partial : forall st p s o, step_op st (OpStroke p s o) = fill st p s o.
 Proof. reflexivity. Qed.
+
+(* ---- one user space for geometry (UserSpace.v) ---- *)
+Require Import RQ.PathOps RQ.RasterGlue RQ.UserSpace.
+
+(* (9) the identity transform is invisible to the rasteriser: for finite coordinates x*1 + y*0 + 0 differs from x at most
+   in the sign of zero, and no consumer sees that *)
+Theorem C11_pretransformed_path_gives_the_same_edges : forall h t c p, path_finite t p ->
+  rz (apply_path h xf_identity c (path_transform t p)) = rz (apply_path h t c p).
+Proof. exact apply_path_pretransformed. Qed.
+Print Assumptions C11_pretransformed_path_gives_the_same_edges.
+
+(* (10) THE CORE OF C11: filling a path under an invertible current transform T with a solid source gives exactly the
+   state - every pixel, layer, clip, the transform, the rasteriser - that filling Path::transform(T) of it under the
+   identity gives (or both fail with the same error); any state: clips and layers included.  Invertibility is needed:
+   singular_ctm_counterexample in UserSpace.v (a singular T draws nothing, the pre-transformed degenerate path does). *)
+Theorem C11_fill_under_T_is_fill_of_transformed_path : forall st p c o ti,
+  xf_inverse (d_ctm st) = Some ti -> path_finite (d_ctm st) p ->
+  match step_op st (OpFillPre p (Solid c) o), step_op st (OpFill p (Solid c) o) with
+  | Ok a, Ok b => same_visible a b
+  | Err e, Err e' => e = e'
+  | _, _ => False
+  end.
+Proof. exact fill_under_T_is_fill_of_transformed_path. Qed.
+Print Assumptions C11_fill_under_T_is_fill_of_transformed_path.
